@@ -363,6 +363,53 @@ def run(ctx):
                 ctx.diff(gcases[s + off], {1: "Tausworthe states / number of negative draws", 2: "epoch_of_next_sample", 3: "epoch_of_next_negative_sample",
                                            4: "head positions (dev %.3g)" % (v[2 * off + 1] / 1e9), 5: "tail positions"}.get(v[2 * off], "?"))
     ctx.extra["max_position_deviation_generic"] = gdev / 1e9
+    # ---- (5b) generic kernel with NON-Euclidean output metrics (haversine on the sphere, hyperboloid): the attractive move of a visited
+    #      edge moves the head along the gradient of d(head, tail) in its first argument and, when move_other, the tail along ITS OWN
+    #      gradient d(tail, head) -- not the negated head step, which coincides only for translation-invariant metrics.  Negative sampling
+    #      is switched off (clocks far in the future); reference: float64 transcription of the documented update using the metric's own
+    #      gradient function (py_func; C14 ties it to the derivative)
+    def ref_attract(H0, T0, shared, head, tail, nxt0, eps_, n_, a_, b_, alpha_, move_other_, mfun):
+        H_ = H0.astype(np.float64).copy(); T_ = H_ if shared else T0.astype(np.float64).copy()
+        for i_ in range(len(eps_)):
+            if nxt0[i_] <= n_:
+                cur, oth = H_[head[i_]], T_[tail[i_]]
+                d_, g_ = mfun(cur.copy(), oth.copy()); _, rg_ = mfun(oth.copy(), cur.copy())
+                w_ = 1.0 / (1.0 + a_ * d_ ** (2 * b_)) if d_ > 0 else 1.0
+                gc_ = 2 * b_ * (w_ - 1) / (d_ + 1e-6)
+                for dd in range(H_.shape[1]):
+                    cur[dd] += min(4.0, max(-4.0, gc_ * g_[dd])) * alpha_
+                    if move_other_:
+                        oth[dd] += min(4.0, max(-4.0, gc_ * rg_[dd])) * alpha_
+        return H_, T_
+    for gno in range(12 if ctx.tier == "quick" else 120):
+        mname = ("haversine_grad", "hyperboloid_grad")[gno % 2]
+        mj = getattr(Dm, mname); mpy = mj.py_func
+        nvert = rng.randint(4, 9); ne = rng.randint(3, 12)
+        if mname == "haversine_grad":
+            Hn = np.stack([npr.uniform(-1.2, 1.2, size=nvert), npr.uniform(-2.8, 2.8, size=nvert)], axis=1).astype(np.float32)
+            Tn = np.stack([npr.uniform(-1.2, 1.2, size=nvert), npr.uniform(-2.8, 2.8, size=nvert)], axis=1).astype(np.float32)
+        else:
+            Hn = npr.normal(size=(nvert, 2)).astype(np.float32); Tn = npr.normal(size=(nvert, 2)).astype(np.float32)
+        shared = gno % 4 < 2; move_other = shared or (gno % 3 == 0)
+        headv = np.array([rng.randrange(nvert) for _ in range(ne)], dtype=np.int32)
+        tailv = np.array([(h + 1 + rng.randrange(nvert - 1)) % nvert for h in headv], dtype=np.int32) if shared else np.array([rng.randrange(nvert) for _ in range(ne)], dtype=np.int32)
+        epsv = npr.uniform(1.0, 3.0, size=ne); nxtv = np.where(npr.random(ne) < 0.7, 0.5, 7.0) * np.ones(ne)
+        epnsv = np.full(ne, 1.0); nnegv = np.full(ne, 1e9)            # (n - 1e9)/1 < 0: no negative samples
+        rsv = np.tile(np.array([1, 2, 3], dtype=np.int64), (nvert, 1))
+        a_, b_, alpha_, n_ = rng.uniform(0.5, 2.0), rng.uniform(0.6, 1.2), rng.uniform(0.05, 0.6), 1
+        Hk = Hn.copy(); Tk = Hk if shared else Tn.copy()
+        gk(epsv.copy(), nxtv.copy(), headv, tailv, Hk, Tk, mj, (), 2, alpha_, move_other, n_, nnegv.copy(), epnsv, rsv.copy(), nvert, a_, b_, 1.0)
+        Hr, Tr = ref_attract(Hn, Tn, shared, headv, tailv, nxtv, epsv, n_, a_, b_, alpha_, move_other, mpy)
+        desc = dict(kernel="generic/" + mname, n=n_, alpha=alpha_, a=a_, b=b_, move_other=move_other, shared=shared, head=headv, tail=tailv,
+                    epoch_of_next_sample=nxtv, H=Hn, T=None if shared else Tn, H_after=Hk.copy(), H_reference=Hr)
+        ctx.tag(("generic_noneuclid", gno), ["generic_kernel_" + mname] + (["move_other"] if move_other else []))
+        dev = float(np.max(np.abs(Hk.astype(np.float64) - Hr)))
+        devT = 0.0 if shared else float(np.max(np.abs(Tk.astype(np.float64) - Tr)))
+        if not (dev <= 2e-3 and devT <= 2e-3):        # also catches NaN
+            ctx.fail("generic_epoch:%s:attractive_move" % mname, "after one epoch of attractive moves the layout deviates from the documented update by %.3g (head) / %.3g (tail); "
+                     "move_other=%s" % (dev, devT, move_other), desc)
+        if not shared and not move_other and not np.array_equal(Tk, Tn):
+            ctx.fail("generic_epoch:reference_layout_moved", "tail embedding changed with move_other=False (%s)" % mname, desc)
     # ---- (6) parametric variant: get_graph_elements (executed from its source text; TensorFlow is not needed for it) ----------
     src = srcparams.func_source("umap/parametric_umap.py", "get_graph_elements")
     ctx.obligations.append("source: parametric_umap.get_graph_elements can be extracted and executed")
